@@ -226,3 +226,60 @@ Definition torn_image (f : file) (ws : list wr) (k : nat) (t : N) : file :=
   | Some w => mkwr (wpos w) (ftake (wdat w) t) :: rev (firstn k ws) ++ f
   | None => rev (firstn k ws) ++ f
   end.
+
+(* ---------- WriteSector on a failing medium (phase 4) ----------
+   The k-th I/O call of the operation fails (Seek and Write calls counted from 0; the medium has no WriterAt,
+   so each header word goes out as Seek + Write).  A failing Write of more than 4 bytes first stores `short`
+   bytes; a failing Write of a 4-byte word stores nothing.  Faithful to the code after fix db6a924: when setHead
+   fails the old run of the chunk is marked used again. *)
+Inductive io := IOSeek | IOWrite (p : N) (d : list N).
+
+Fixpoint run_plan (failat : nat) (short : N) (c : nat) (plan : list io) : list wr * bool :=
+  match plan with
+  | [] => ([], false)
+  | op :: t =>
+      if Nat.eqb c failat then
+        (match op with
+         | IOSeek => []
+         | IOWrite p d => let d' := if flen d <=? 4 then [] else ftake d short in
+                          if flen d' =? 0 then [] else [mkwr p d']
+         end, true)
+      else let '(ws, f) := run_plan failat short (S c) t in
+           (match op with IOSeek => ws | IOWrite p d => mkwr p d :: ws end, f)
+  end.
+
+Inductive wresF := WFOk | WFTooLarge | WFErr | WFOutside.
+
+Definition write_sector_fail (failat : nat) (short : N) (s : st) (x z : N) (data : list N) (now : N)
+  : st * list wr * wresF :=
+  let need := (flen data + 4 + 4095) / 4096 in
+  let i := idx x z in
+  let o := getN (offs s) i in
+  let n := sec_of o in let cur := cnt_of o in
+  if 256 <=? need then (s, [], WFTooLarge) else
+  if negb (n =? 0) && (cur =? need) then
+    let '(ws, f) := run_plan failat short 0
+                      [IOSeek; IOWrite (4096 * n) (be 4 (flen data)); IOWrite (4096 * n + 4) data] in
+    ({| offs := offs s; tss := tss s; used := used s; hwm := hwm s; img := rev ws ++ img s |}, ws,
+     if f then WFErr else WFOk)
+  else
+    let u1 := mark (used s) n (N.to_nat cur) false in
+    match find_space (N.to_nat (hwm s + need + 2)) u1 need 0 0 with
+    | None => (s, [], WFOutside)
+    | Some n' =>
+        if sector_limit <=? n' + need then (s, [], WFOutside) else
+        let u2 := mark u1 n' (N.to_nat need) true in
+        let o' := n' * 256 + need in
+        let '(wsH, fH) := run_plan failat short 0
+                            [IOSeek; IOWrite (4 * i) (be 4 o'); IOSeek; IOWrite (4096 + 4 * i) (be 4 (now mod 2^32))] in
+        if fH then
+          (* setHead failed: memory already names the new run; the old run is reserved again; no timestamp *)
+          ({| offs := setN (offs s) i o'; tss := tss s; used := mark u2 n (N.to_nat cur) true;
+              hwm := N.max (hwm s) (n' + need); img := rev wsH ++ img s |}, wsH, WFErr)
+        else
+          let '(wsD, fD) := run_plan failat short 4
+                              [IOSeek; IOWrite (4096 * n') (be 4 (flen data)); IOWrite (4096 * n' + 4) data] in
+          ({| offs := setN (offs s) i o'; tss := setN (tss s) i (now mod 2^32); used := u2;
+              hwm := N.max (hwm s) (n' + need); img := rev (wsH ++ wsD) ++ img s |}, wsH ++ wsD,
+           if fD then WFErr else WFOk)
+    end.
